@@ -65,10 +65,10 @@ var flavors = map[string]flavor{
 	"C04": {name: "C04", wRO: 5, wPub: 40, wDel: 22, wDelMulti: 4, wTrim: 4, wReopen: 8, wGC: 4, monoPct: 50, sweepGet: true, sweepEvery: 2, smallRoll: true, verMix: true},
 	"C09": {name: "C09", wRO: 5, wPub: 45, wDel: 18, wDelMulti: 3, wCompact: 4, wReopen: 8, wGC: 5, monoPct: 50, sweepKeys: true, sweepEvery: 2, fewKeys: true, smallRoll: true, verMix: true},
 	"C10": {name: "C10", wRO: 5, wPub: 45, wDel: 18, wDelMulti: 3, wTrim: 3, wReopen: 10, wGC: 5, monoPct: 100, sweepTimes: true, sweepEvery: 2, smallRoll: true, verMix: true},
-	"C11": {name: "C11", wPub: 45, wDel: 14, wDelMulti: 3, wTrim: 3, wCompact: 2, wReopen: 22, wGC: 4, monoPct: 70, obsScan: true, closeChecks: true, sweepEvery: 4, verMix: true, sweepGet: true, sweepKeys: true, sweepTimes: true},
+	"C11": {name: "C11", wRO: 10, wPub: 45, wDel: 14, wDelMulti: 3, wTrim: 3, wCompact: 2, wReopen: 22, wGC: 4, monoPct: 70, obsScan: true, closeChecks: true, sweepEvery: 4, verMix: true, sweepGet: true, sweepKeys: true, sweepTimes: true},
 	"C12": {name: "C12", wPub: 35, wDel: 30, wDelMulti: 14, wReopen: 8, wGC: 3, monoPct: 50, obsScan: true, obsFs: true, sweepEvery: 1, verMix: true, smallRoll: true},
 	"C13": {name: "C13", wRO: 4, wPub: 45, wDel: 15, wDelMulti: 4, wTrim: 4, wReopen: 12, wGC: 3, monoPct: 50, obsScan: true, obsFs: true, sweepEvery: 1, verMix: true},
-	"C15": {name: "C15", wPub: 40, wDel: 8, wTrim: 26, wFind: 14, wReopen: 6, monoPct: 70, obsScan: true, sweepEvery: 1, smallRoll: true},
+	"C15": {name: "C15", wPub: 40, wDel: 8, wTrim: 26, wFind: 14, wReopen: 6, monoPct: 70, obsScan: true, sweepEvery: 1, smallRoll: true, verMix: true},
 	"C16": {name: "C16", wPub: 45, wDel: 5, wCompact: 26, wFind: 10, wReopen: 6, monoPct: 70, obsScan: true, sweepEvery: 1, fewKeys: true, smallRoll: true, verMix: true},
 	"C17": {name: "C17", wPub: 40, wDel: 18, wDelMulti: 4, wTrim: 3, wReopen: 26, monoPct: 60, obsScan: true, obsFs: true, sweepEvery: 1, verMix: true, smallRoll: true},
 	"C19": {name: "C19", wPub: 40, wDel: 10, wReopen: 10, wRO: 22, wGC: 3, monoPct: 70, obsScan: true, obsFs: true, sweepEvery: 1, sweepGet: true, sweepKeys: true, sweepTimes: true, verMix: true},
@@ -458,6 +458,11 @@ func (g *seqGen) observe(step int) {
 		return
 	}
 	r := g.r
+	// which query comes first matters: every one of them may be the one that finds an index file missing, a
+	// segment not yet loaded, a reader just swapped in (the scan below loads everything)
+	if r.chance(50) {
+		g.emit(g.anyQuery())
+	}
 	if g.fl.obsScan {
 		g.emit(fmt.Sprintf("scan %d", r.pick([]int64{1, 2, 3, 7, 32})))
 		g.emit("next")
@@ -504,6 +509,33 @@ func (g *seqGen) observe(step int) {
 				g.emit(fmt.Sprintf("gbt %d", g.genCutoff()))
 			}
 		}
+	}
+}
+
+// anyQuery: one read-only call of any kind, somewhere in the log.
+func (g *seqGen) anyQuery() string {
+	r := g.r
+	off := int64(r.intn(int(g.next)+3)) - 2
+	k := dash(g.keys[r.intn(len(g.keys))])
+	switch r.intn(9) {
+	case 0:
+		return "stat"
+	case 1:
+		return fmt.Sprintf("get %d", off)
+	case 2:
+		return "gbk " + k
+	case 3:
+		return fmt.Sprintf("cbk %s %d %d", k, off, 1+r.intn(3))
+	case 4:
+		return fmt.Sprintf("gbt %d", g.genCutoff())
+	case 5:
+		return fmt.Sprintf("cons %d %d", off, 1+r.intn(4))
+	case 6:
+		return fmt.Sprintf("find count %d", r.intn(len(g.live)+3))
+	case 7:
+		return "obk " + k
+	default:
+		return "next"
 	}
 }
 
